@@ -1,15 +1,18 @@
 import PdtVerif.Lemmas.Slicing
 import PdtVerif.Lemmas.SlicingAli
+import PdtVerif.Lemmas.SlicingDir
 /-!
 # C10 — slicing policies yield the documented windows; token chunks are slice-relative
 
 Property theorems only. `Model/Slicing.lean` is the tensor-style model of the (repaired) code,
 `Spec/SlicePolicy.lean` the declarative policies, `Lemmas/Slicing.lean` and `Lemmas/SlicingAli.lean`
-(policy 'ali', the directory-level worker) the helper lemmas.
+(policy 'ali', the directory-level worker) the helper lemmas; `Model/SlicingDir.lean` /
+`Lemmas/SlicingDir.lean` the rest of the worker (features and alignments through C09's `ChunkBySlices`
+model, file names, the files a sub-directory ends up holding).
 All statements are for every batch size, padded length, lobe size and input.
 -/
 namespace PdtVerif.Slicing
-open PdtVerif.SlicePolicy
+open PdtVerif.SlicePolicy PdtVerif.PadSlice
 
 /-! ## token chunking -/
 
@@ -427,5 +430,259 @@ example : dirChunks .ali .symmetric false 0 true false ⟨6, [0, 0, 1, 1, 1, 2],
     .ok [(⟨0, 2, 0⟩, [(7, 0, 2)]), (⟨2, 5, 0⟩, [(8, 4, 7)]), (⟨5, 6, 0⟩, [(9, 10, 11)])] := by rfl
 example : dirSpec .ali 0 .symmetric false true false ⟨6, [0, 0, 1, 1, 1, 2], [(7, 0, 2), (8, 2, 5), (9, 5, 6)]⟩ =
     [(⟨0, 2, 0⟩, [(7, 0, 2)]), (⟨2, 5, 0⟩, [(8, 0, 3)]), (⟨5, 6, 0⟩, [(9, 0, 1)])] := by decide
+
+/-! ## the consequence clause, continued: features, alignments, file names, the files written
+
+`dirWorker` (`Model/SlicingDir.lean`) is the whole of `_chunk_torch_spect_data_dir_do_work`: the slicer,
+`format_utt.format(...)`, `ChunkBySlices` on `feats.expand(M, …)` and `alis.expand(M, …)` (C09's model
+`PadChunk.chunkBySlicesT`, composed here with C09's theorems `C09_chunk` / `C09_chunk_reflect`), the token
+chunker, the `assert` on the two length vectors, and the `torch.save` calls in order. -/
+
+/-- **C10_dir_frames**: for every utterance `xs` (features, or the per-frame alignment), padding mode
+(constant, replicate, reflect), pad value and list of windows the chunker accepts (`WinLegal`: any window
+for constant padding, a non-empty utterance for replicate, less padding than frames for reflect),
+`ChunkBySlices` on the utterance expanded against its `M` windows reports the lengths `end - start` and
+row `n` cut at its length is the utterance restricted to window `n` — C09's pad-then-slice `chunkSeq`:
+frame `start + i` of the utterance at position `i`, the requested padding outside `[0, T)`. -/
+theorem C10_dir_frames {β} (mode : Mode) (value : β) (xs : List β) (ws : List Win)
+    (hlegal : ∀ w ∈ ws, WinLegal mode xs.length w) :
+    ∃ out, expandChunk mode value xs ws = .ok (out, ws.map fun w => chunkLen w.start w.stop) ∧
+      cutRows out (ws.map fun w => chunkLen w.start w.stop)
+        = ws.map fun w => chunkSeq mode value xs w.start w.stop :=
+  expandChunk_spec mode value xs ws hlegal
+
+/-- **C10_dir_frames_valid**: without `--pad-mode` every window the policy prescribes is accepted by the
+chunker in every mode and the chunk is the plain slice `xs[start:end]` — no pad value enters. For `'ref'`
+the utterance must be at least as long as the end of its last token (a well-formed directory). -/
+theorem C10_dir_frames_valid {β} (policy : Policy) (wt : WinType) (lobe : Nat) (u : Utt)
+    (hali : u.ali.length = u.T) (hpol : policy = .ref → refOther u.ref u.ref.length ≤ (u.T : Int))
+    (mode : Mode) (value : β) (xs : List β) (hx : xs.length = u.T)
+    (w : Win) (hw : w ∈ dirWindows policy lobe wt true u) :
+    WinLegal mode xs.length w ∧
+      chunkSeq mode value xs w.start w.stop = (xs.take w.stop.toNat).drop w.start.toNat := by
+  have hin : Inside w (u.T : Int) := by
+    have := C10_dir_valid_inside policy wt lobe u hali w hw
+    cases policy
+    · exact this
+    · exact this
+    · obtain ⟨h0, h1, h2⟩ := this
+      exact ⟨h0, h1, Int.le_trans h2 (hpol rfl)⟩
+  rw [← hx] at hin
+  exact ⟨winLegal_inside mode xs.length w hin,
+    chunkSeq_inside mode value xs w.start w.stop hin.1 (Int.le_of_lt hin.2.1) hin.2.2⟩
+
+/-- **C10_dir_worker**: everything the worker writes for one utterance. For every policy, window type,
+lobe, `--pad-mode` (or none), pad constant, token options, name format, prefix and suffix: one write per
+window the policy prescribes for the utterance alone, in order; write `n` is named
+`prefix + format_utt.format(utt_id, idx=n, start, end) + suffix` and holds the features and the alignment
+restricted to the window with the requested padding (`chunkSeq`) and the tokens kept for the window
+(`tokensKept`, passed through the code's `shiftTok`). Hypotheses: the data the policy reads exists, an
+alignment has one label per frame, the utterance is non-empty, the chunker accepts the windows. -/
+theorem C10_dir_worker {α} (fmt : Fmt) (pre suf utt : List Char) (policy : Policy) (wt : WinType) (lobe : Nat)
+    (padMode : Option Mode) (padConst : α) (padConstAli : Int) (p retain : Bool) (s : Source α)
+    (hhave : (policy = .ali → s.ali.isSome) ∧ (policy = .ref → s.ref.isSome))
+    (hali : ∀ a, s.ali = some a → a.length = s.frames.length)
+    (hne : if policy = .ref then s.utt.ref ≠ [] else s.frames ≠ [])
+    (hlegal : ∀ w ∈ dirWindows policy lobe wt padMode.isNone s.utt,
+      WinLegal (padMode.getD .constant) s.frames.length w) :
+    dirWorker fmt pre suf utt policy wt lobe padMode padConst padConstAli p retain s =
+      .ok ((dirWindows policy lobe wt padMode.isNone s.utt).zipIdx.map fun q =>
+        writtenOf fmt pre suf utt (padMode.getD .constant) padConst padConstAli p retain s q.2 q.1) := by
+  rw [dirWorker_eq fmt pre suf utt policy wt lobe padMode padConst padConstAli p retain s hhave hali hne hlegal,
+    range_map_getD_eq_zipIdx]
+
+/-- `--pad-mode constant` accepts every window; `--pad-mode replicate` every window of a non-empty
+utterance: `C10_dir_worker` without a side condition on the windows. -/
+theorem C10_dir_worker_padded {α} (fmt : Fmt) (pre suf utt : List Char) (policy : Policy) (wt : WinType)
+    (lobe : Nat) (mode : Mode) (padConst : α) (padConstAli : Int) (p retain : Bool) (s : Source α)
+    (hmode : mode = .constant ∨ (mode = .replicate ∧ s.frames ≠ []))
+    (hhave : (policy = .ali → s.ali.isSome) ∧ (policy = .ref → s.ref.isSome))
+    (hali : ∀ a, s.ali = some a → a.length = s.frames.length)
+    (hne : if policy = .ref then s.utt.ref ≠ [] else s.frames ≠ []) :
+    dirWorker fmt pre suf utt policy wt lobe (some mode) padConst padConstAli p retain s =
+      .ok ((dirWindows policy lobe wt false s.utt).zipIdx.map fun q =>
+        writtenOf fmt pre suf utt mode padConst padConstAli p retain s q.2 q.1) := by
+  apply C10_dir_worker fmt pre suf utt policy wt lobe (some mode) padConst padConstAli p retain s hhave hali hne
+  intro w _
+  rcases hmode with rfl | ⟨rfl, hs⟩
+  · exact winLegal_constant _ w
+  · exact winLegal_replicate _ (by simpa using hs) w
+
+/-- **C10_dir_worker_valid_only**: without `--pad-mode`, no side condition and no padding: chunk `n` holds
+`feats[start:end]`, `alis[start:end]` and the tokens kept for the window. (For `'ref'`: the utterance is at
+least as long as the end of its last token.) -/
+theorem C10_dir_worker_valid_only {α} (fmt : Fmt) (pre suf utt : List Char) (policy : Policy) (wt : WinType)
+    (lobe : Nat) (padConst : α) (padConstAli : Int) (p retain : Bool) (s : Source α)
+    (hhave : (policy = .ali → s.ali.isSome) ∧ (policy = .ref → s.ref.isSome))
+    (hali : ∀ a, s.ali = some a → a.length = s.frames.length)
+    (hne : if policy = .ref then s.utt.ref ≠ [] else s.frames ≠ [])
+    (hpol : policy = .ref → refOther s.utt.ref s.utt.ref.length ≤ (s.frames.length : Int)) :
+    dirWorker fmt pre suf utt policy wt lobe none padConst padConstAli p retain s =
+      .ok ((dirWindows policy lobe wt true s.utt).zipIdx.map fun q =>
+        ⟨baseName fmt pre suf utt q.2 q.1, (s.frames.take q.1.stop.toNat).drop q.1.start.toNat,
+         s.ali.map fun a => (a.take q.1.stop.toNat).drop q.1.start.toNat,
+         s.ref.map fun r => (tokensKept p r (q.1.start, q.1.stop) none).map (shiftTok retain q.1.start)⟩) := by
+  -- the slicer does not look at an alignment unless the policy is 'ali': give it one of the right length
+  have key : ∀ w ∈ dirWindows policy lobe wt true s.utt, Inside w (s.frames.length : Int) := by
+    intro w hw
+    by_cases hp : policy = .ali
+    · subst hp
+      have hsome := hhave.1 rfl
+      cases hs : s.ali with
+      | none => simp [hs] at hsome
+      | some a =>
+        have := C10_dir_valid_inside .ali wt lobe s.utt (by simp [Source.utt, hs, hali a hs]) w hw
+        simpa [Source.utt] using this
+    · have hw' : w ∈ dirWindows policy lobe wt true ⟨s.utt.T, List.replicate s.utt.T 0, s.utt.ref⟩ := by
+        cases policy
+        · exact hw
+        · exact absurd rfl hp
+        · exact hw
+      have := C10_dir_valid_inside policy wt lobe ⟨s.utt.T, List.replicate s.utt.T 0, s.utt.ref⟩ (by simp) w hw'
+      cases policy
+      · simpa [Source.utt] using this
+      · exact absurd rfl hp
+      · obtain ⟨h0, h1, h2⟩ := this
+        exact ⟨h0, h1, Int.le_trans h2 (hpol rfl)⟩
+  rw [dirWorker_eq fmt pre suf utt policy wt lobe none padConst padConstAli p retain s hhave hali hne
+    (fun w hw => winLegal_inside _ _ w (key w hw))]
+  simp only [Option.isNone_none, Option.getD_none]
+  refine congrArg Except.ok ?_
+  let G : Nat → Win → Written α := fun n w => ⟨baseName fmt pre suf utt n w,
+      (s.frames.take w.stop.toNat).drop w.start.toNat,
+      s.ali.map fun a => (a.take w.stop.toNat).drop w.start.toNat,
+      s.ref.map fun r => (tokensKept p r (w.start, w.stop) none).map (shiftTok retain w.start)⟩
+  refine (range_map_getD_congr _ (⟨0, 0, 0⟩ : Win) _ G ?_).trans (range_map_getD_eq_zipIdx _ (⟨0, 0, 0⟩ : Win) G)
+  intro n w hw
+  obtain ⟨h0, h1, h2⟩ := key w hw
+  simp only [writtenOf, G]
+  congr 1
+  · exact chunkSeq_inside _ _ _ _ _ h0 (Int.le_of_lt h1) h2
+  · cases hs : s.ali with
+    | none => rfl
+    | some a =>
+      simp only [Option.map_some]
+      rw [chunkSeq_inside _ _ _ _ _ h0 (Int.le_of_lt h1) (by rw [hali a hs]; exact h2)]
+
+/-- With `--retain-token-boundaries` the tokens of every write are the specified ones (`tokensRow`); without,
+each boundary is `in + start` (the known finding, `C10_dir_plus_start`). -/
+theorem C10_dir_worker_tokens (p retain : Bool) (r : List Tok) (w : Win) :
+    (tokensKept p r (w.start, w.stop) none).map (shiftTok retain w.start) =
+      if retain then tokensRow p true r (w.start, w.stop) none
+      else (tokensRow p false r (w.start, w.stop) none).map fun tk =>
+        (tk.1, tk.2.1 + 2 * w.start, tk.2.2 + 2 * w.start) := by
+  cases retain
+  · simp only [Bool.false_eq_true, if_false, tokensRow, List.map_map]
+    apply List.map_congr_left
+    intro tk _
+    simp only [shiftTok, relTok, Function.comp, Bool.false_eq_true, if_false]
+    refine Prod.ext rfl (Prod.ext ?_ ?_) <;> simp only <;> omega
+  · simp only [if_true, tokensRow]
+    apply List.map_congr_left
+    intro tk _
+    simp [shiftTok, relTok]
+
+/-! ### file names -/
+
+/-- **C10_name_roundtrip**: a name made by the command's default `--format-utt`
+(`{utt_id}.{start:05d}.{end:05d}`) read back from the right gives the utterance id — whatever characters
+it holds, dots included — and the window, for every integer start and end (negative: `-0002`; wider than
+five digits: not truncated). -/
+theorem C10_name_roundtrip (utt : List Char) (i : Nat) (w : Win) :
+    parseName (render defaultFmt utt i w) = some (utt, w.start, w.stop) :=
+  parseName_render_default utt i w
+
+/-- **C10_name_injective**: under the default format two file names (same prefix and suffix) are equal
+exactly when utterance id, start and end are: distinct (utterance, window) pairs get distinct files, and
+two chunks of one utterance share a file only if their windows are equal. -/
+theorem C10_name_injective (pre suf utt utt' : List Char) (i i' : Nat) (w w' : Win) :
+    baseName defaultFmt pre suf utt i w = baseName defaultFmt pre suf utt' i' w' ↔
+      utt = utt' ∧ w.start = w'.start ∧ w.stop = w'.stop := by
+  constructor
+  · intro h
+    unfold baseName at h
+    rw [List.append_assoc, List.append_assoc] at h
+    have h1 := List.append_cancel_left h
+    have h2 := List.append_cancel_right h1
+    have h3 := congrArg parseName h2
+    rw [C10_name_roundtrip, C10_name_roundtrip] at h3
+    simpa using h3
+  · rintro ⟨rfl, hs, he⟩
+    exact baseName_default_window pre suf utt i i' w w' hs he
+
+/-- **C10_name_idx_injective**: with `{utt_id}.{idx}.{start}.{end}` names are equal only if utterance id,
+chunk index, start and end are: every chunk of every utterance gets its own file. -/
+theorem C10_name_idx_injective (pre suf utt utt' : List Char) (i i' : Nat) (w w' : Win)
+    (h : baseName idxFmt pre suf utt i w = baseName idxFmt pre suf utt' i' w') :
+    utt = utt' ∧ i = i' ∧ w.start = w'.start ∧ w.stop = w'.stop := by
+  unfold baseName at h
+  rw [List.append_assoc, List.append_assoc] at h
+  have h2 := List.append_cancel_right (List.append_cancel_left h)
+  have h3 := congrArg parseIdxName h2
+  rw [parseIdxName_render, parseIdxName_render] at h3
+  simp only [Option.some.injEq, Prod.mk.injEq] at h3
+  exact ⟨h3.1, by omega, h3.2.2.1, h3.2.2.2⟩
+
+example : render defaultFmt "spk1.a-1".toList 3 ⟨-2, 7, 0⟩ = "spk1.a-1.-0002.00007".toList := by decide +kernel
+example : render defaultFmt "u".toList 0 ⟨99998, 100003, 0⟩ = "u.99998.100003".toList := by decide +kernel
+example : render idxFmt "u".toList 12 ⟨-1, 4, 0⟩ = "u.12.-1.4".toList := by decide +kernel
+example : parseName "a.b.00003.-0001".toList = some ("a.b".toList, 3, -1) := by decide +kernel
+
+/-! ### the files a sub-directory holds -/
+
+/-- **C10_dir_files** (default names): after the worker's writes for one utterance, taken in order with a
+later write replacing an earlier one of the same name, (1) the name of every prescribed window holds exactly
+that window's chunk (two equal windows share the name and write the same content), and (2) every name present
+is the name of a prescribed window. -/
+theorem C10_dir_files {α} (pre suf utt : List Char) (mode : Mode) (padConst : α) (padConstAli : Int)
+    (p retain : Bool) (s : Source α) (ws : List Win) :
+    let writes := (ws.zipIdx.map fun q =>
+        writtenOf defaultFmt pre suf utt mode padConst padConstAli p retain s q.2 q.1).map fun o => (o.base, o)
+    (∀ w ∈ ws, lookupFile writes (baseName defaultFmt pre suf utt 0 w)
+        = some (writtenOf defaultFmt pre suf utt mode padConst padConstAli p retain s 0 w)) ∧
+    (∀ name o, lookupFile writes name = some o →
+        ∃ w ∈ ws, name = baseName defaultFmt pre suf utt 0 w ∧
+          o = writtenOf defaultFmt pre suf utt mode padConst padConstAli p retain s 0 w) := by
+  intro writes
+  have hmem : ∀ q ∈ writes, ∃ w ∈ ws, q = (baseName defaultFmt pre suf utt 0 w,
+      writtenOf defaultFmt pre suf utt mode padConst padConstAli p retain s 0 w) := by
+    intro q hq
+    simp only [writes, List.map_map, List.mem_map, Function.comp] at hq
+    obtain ⟨⟨w, n⟩, hwn, rfl⟩ := hq
+    refine ⟨w, (List.mem_zipIdx hwn).2.2 ▸ List.getElem_mem _, ?_⟩
+    simp [writtenOf, baseName_default_idx pre suf utt n 0 w]
+  have hcons : ∀ a ∈ writes, ∀ b ∈ writes, a.1 = b.1 → a.2 = b.2 := by
+    intro a ha b hb hab
+    obtain ⟨w, _, rfl⟩ := hmem a ha
+    obtain ⟨w', _, rfl⟩ := hmem b hb
+    obtain ⟨_, hs, he⟩ := (C10_name_injective pre suf utt utt 0 0 w w').1 hab
+    simp [writtenOf, hs, he, baseName_default_window pre suf utt 0 0 w w' hs he]
+  constructor
+  · intro w hw
+    obtain ⟨n, hn, rfl⟩ := List.getElem_of_mem hw
+    have hin : (baseName defaultFmt pre suf utt 0 ws[n],
+        writtenOf defaultFmt pre suf utt mode padConst padConstAli p retain s 0 ws[n]) ∈ writes := by
+      simp only [writes, List.map_map, List.mem_map, Function.comp]
+      refine ⟨(ws[n], n), ?_, ?_⟩
+      · rw [List.mem_iff_getElem]
+        exact ⟨n, by simpa using hn, by simp⟩
+      · simp [writtenOf, baseName_default_idx pre suf utt n 0 ws[n]]
+    exact lookupFile_consistent writes hcons _ hin
+  · intro name o h
+    obtain ⟨w, hw, he⟩ := hmem _ (lookupFile_mem writes name o h)
+    exact ⟨w, hw, (Prod.mk.inj he).1, (Prod.mk.inj he).2⟩
+
+-- the hypotheses of `C10_dir_worker` on a concrete run (replicate padding, windows [0,3) and [2,5) of 4 frames)
+example : ∀ w ∈ dirWindows .fixed 1 .symmetric false
+    (Source.utt (⟨[10, 11, 12, 13], some [5, 5, 6, 6], some [(1, 0, 2), (2, 2, 4)]⟩ : Source Int)),
+    WinLegal .replicate 4 w := by decide +kernel
+-- reflect padding: the window [2,5) needs one frame of padding on the right, fewer than the 4 frames
+example : WinLegal .reflect 4 ⟨2, 5, 0⟩ ∧ ¬ WinLegal .reflect 1 ⟨-1, 1, 0⟩ := by decide
+example : chunkSeq .reflect (-1 : Int) [10, 11, 12, 13] 2 5 = [12, 13, 12] := by decide
+
+example : dirWorker defaultFmt "p-".toList ".pt".toList "u".toList .fixed .symmetric 1 (some .replicate)
+      (-1 : Int) (-1) false true ⟨[10, 11, 12, 13], some [5, 5, 6, 6], some [(1, 0, 2), (2, 2, 4)]⟩ =
+    .ok [⟨"p-u.00000.00003.pt".toList, [10, 11, 12], some [5, 5, 6], some [(1, 0, 2)]⟩,
+         ⟨"p-u.00002.00005.pt".toList, [12, 13, 13], some [6, 6, 6], some [(2, 2, 4)]⟩] := by decide +kernel
 
 end PdtVerif.Slicing
